@@ -1708,6 +1708,8 @@ def lib_getattr(fr: Frame, base, a: str, node):
     if isinstance(base, AEnzymeV):
         if a in ("is_3overhang", "is_5overhang", "is_blunt", "is_unknown", "catalyse"):
             return BoundMethod("enzyme", base, a)
+        if a in ("site", "ovhgseq", "size", "fst5", "fst3", "ovhg", "elucidate", "search", "compsite"):
+            return Term(a, Term("cutter"))
     if isinstance(base, AStruct):
         if a in base.fields:
             return base.fields[a]
